@@ -1,7 +1,35 @@
 (* C07  SDict behaves as a dict, and merge() never overwrites or loses anything. *)
+From Coq Require Import String.   (* string literals of the examples; imported first so the list names win *)
 From Coq Require Import NArith ZArith List Bool.
 From DictIO Require Import Chars Str Value Scalar KeyPath SDict TreeSpec SDictProofs.
 Import ListNotations.
+
+(* ---- data of the non-vacuity examples ------------------------------------------------------------------------- *)
+Module C07_ex.
+  Definition ka := KS (of_string "a").  Definition kb := KS (of_string "b").
+  Definition kc := KS (of_string "c").  Definition kd := KS (of_string "d").
+  Definition one := Leaf (SInt 1).  Definition two := Leaf (SInt 2).
+  Definition ph (w : string) : key * tree := (KS (of_string w), Leaf (SStr (of_string w))).
+  (* an ordinary, well formed state: nested dicts, a list with a dict inside, an int key, non-empty side tables *)
+  Definition s0 : sdict :=
+    mkSD [(ka, Dict [(kb, one); (kc, Lst [one; Dict [(ka, two)]])]); (kc, Leaf (SStr (of_string "x y"))); (KI 1, two)]
+         [(1%N, of_string "// x")] [(0%N, of_string "/* h */")] [] [].
+  Definition o1 : sdict := mkSD [] [(1%N, of_string "// y"); (2%N, of_string "// z")] [] [] [].
+  Definition m1 : list (key * tree) := [(ka, Dict [(kc, two); (kd, Dict [(kb, two)])]); (kd, one); (KI 1, Lst [])].
+  (* every constructor of the operation type; the two deletions of kd raise KeyError on both sides *)
+  Definition ops : list sdop :=
+    [ OSet kd (Dict [(ka, one)]); OSet ka two; ODel kc; ODel kd; OUpdate m1 None; OUpdate m1 (Some o1); OOr m1 (Some o1);
+      ORor m1; OPop (KI 1); OPop kd; OSetdefault ka two; OSetdefault kd (Lst [one; two]); OClear; OCopy; OCtor;
+      OMerge m1 None; OMerge m1 (Some o1) ].
+  (* a state with placeholder entries whose comments coincide: the clean-up has something to delete, at both levels *)
+  Definition sc : sdict :=
+    mkSD [ph "BLOCKCOMMENT000001"; ph "BLOCKCOMMENT000002";
+          (ka, Dict [ph "LINECOMMENT000003"; (kb, one); ph "LINECOMMENT000004"]); (kc, two)]
+         [(3%N, of_string "// l"); (4%N, of_string "// l")] [(1%N, of_string "/* c */"); (2%N, of_string "/* c */")] [] [].
+  Definition target : list (key * tree) := [(ka, Dict [(kb, one); (kc, Lst [one])]); (kc, two)].
+  Definition other : list (key * tree) :=
+    [(kd, one); (ka, Dict [(kb, two); (kd, Dict [(ka, two)]); (kc, Dict [(ka, one)])]); (kc, Dict [(ka, one)])].
+End C07_ex.
 
 (* Python dicts have unique keys at every level: the state and every argument of an operation are well
    formed ([wf], [wf_op]); [ordinary] alone does not imply it and the statements fail on duplicated keys
@@ -19,6 +47,36 @@ Theorem C07_step : forall s op, ordinary_kvs (sd_data s) = true -> ordinary_op o
 Proof. exact sd_step_refines. Qed.
 Print Assumptions C07_step.
 
+(* non-vacuity: the state s0 and every kind of operation (17 operations, two of them raising) meet the hypotheses; the
+   conclusion is obtained from the theorem for each of them *)
+Example C07_step_nonvacuous :
+  ordinary_kvs (sd_data C07_ex.s0) = true /\ wf (Dict (sd_data C07_ex.s0)) = true /\
+  Forall (fun op => ordinary_op op = true /\ wf_op op = true /\
+                    match sd_step C07_ex.s0 op, py_step (sd_data C07_ex.s0) op with
+                    | Ok s', Ok d' => sd_data s' = d'
+                    | Raise e, Raise e' => e = e'
+                    | _, _ => False
+                    end) C07_ex.ops /\
+  sd_step C07_ex.s0 (ODel C07_ex.kd) = Raise E_Key /\
+  (exists s', sd_step C07_ex.s0 (OMerge C07_ex.m1 (Some C07_ex.o1)) = Ok s' /\
+     sd_data s' = [(C07_ex.ka, Dict [(C07_ex.kb, C07_ex.one); (C07_ex.kc, Lst [C07_ex.one; Dict [(C07_ex.ka, C07_ex.two)]]);
+                                     (C07_ex.kd, Dict [(C07_ex.kb, C07_ex.two)])]);
+                   (C07_ex.kc, Leaf (SStr (of_string "x y"))); (KI 1, C07_ex.two); (C07_ex.kd, C07_ex.one)]).
+Proof.
+  assert (H1 : ordinary_kvs (sd_data C07_ex.s0) = true) by (vm_compute; reflexivity).
+  assert (H2 : wf (Dict (sd_data C07_ex.s0)) = true) by (vm_compute; reflexivity).
+  refine (conj H1 (conj H2 (conj _ (conj _ _)))).
+  - unfold C07_ex.ops.
+    repeat (constructor;
+            [ match goal with |- ordinary_op ?op = true /\ _ =>
+                assert (A : ordinary_op op = true) by (vm_compute; reflexivity);
+                assert (B : wf_op op = true) by (vm_compute; reflexivity);
+                exact (conj A (conj B (C07_step C07_ex.s0 op H1 A H2 B))) end | ]).
+    constructor.
+  - vm_compute. reflexivity.
+  - eexists. split; vm_compute; reflexivity.
+Qed.
+
 (* every reachable state: any history *)
 Theorem C07_history : forall ops s, ordinary_kvs (sd_data s) = true -> forallb ordinary_op ops = true ->
   wf (Dict (sd_data s)) = true -> forallb wf_op ops = true ->
@@ -28,6 +86,23 @@ Theorem C07_history : forall ops s, ordinary_kvs (sd_data s) = true -> forallb o
 Proof. exact sd_run_refines. Qed.
 Print Assumptions C07_history.
 
+(* non-vacuity: the seventeen operations above as one history from s0 (a second instance is in the module at the end) *)
+Example C07_history_nonvacuous :
+  ordinary_kvs (sd_data C07_ex.s0) = true /\ forallb ordinary_op C07_ex.ops = true /\
+  wf (Dict (sd_data C07_ex.s0)) = true /\ forallb wf_op C07_ex.ops = true /\
+  (sd_data (sd_run C07_ex.s0 C07_ex.ops) = py_run (sd_data C07_ex.s0) C07_ex.ops /\
+   ordinary_kvs (sd_data (sd_run C07_ex.s0 C07_ex.ops)) = true /\
+   wf (Dict (sd_data (sd_run C07_ex.s0 C07_ex.ops))) = true) /\
+  sd_data (sd_run C07_ex.s0 C07_ex.ops) = C07_ex.m1.
+Proof.
+  assert (H1 : ordinary_kvs (sd_data C07_ex.s0) = true) by (vm_compute; reflexivity).
+  assert (H2 : forallb ordinary_op C07_ex.ops = true) by (vm_compute; reflexivity).
+  assert (H3 : wf (Dict (sd_data C07_ex.s0)) = true) by (vm_compute; reflexivity).
+  assert (H4 : forallb wf_op C07_ex.ops = true) by (vm_compute; reflexivity).
+  refine (conj H1 (conj H2 (conj H3 (conj H4 (conj (C07_history C07_ex.ops C07_ex.s0 H1 H2 H3 H4) _))))).
+  vm_compute. reflexivity.
+Qed.
+
 (* the clean-up after update / merge only ever deletes placeholder keys *)
 Theorem C07_clean_only_placeholders : forall s k, ordinary_key k = true ->
   wf (Dict (sd_data s)) = true ->
@@ -36,11 +111,40 @@ Theorem C07_clean_only_placeholders : forall s k, ordinary_key k = true ->
 Proof. exact clean_keeps_ordinary_keys. Qed.
 Print Assumptions C07_clean_only_placeholders.
 
+(* non-vacuity: a state in which the clean-up really deletes entries (the second block comment at the top level, the
+   second line comment inside a); the ordinary keys c (a leaf: first alternative) and a (a dict: second alternative)
+   meet the hypotheses.  Note that for a the theorem itself says no more than "a dict before, a dict after". *)
+Example C07_clean_only_placeholders_nonvacuous :
+  ordinary_key C07_ex.kc = true /\ ordinary_key C07_ex.ka = true /\ wf (Dict (sd_data C07_ex.sc)) = true /\
+  sd_data (sd_clean C07_ex.sc) =
+    [C07_ex.ph "BLOCKCOMMENT000001"; (C07_ex.ka, Dict [C07_ex.ph "LINECOMMENT000003"; (C07_ex.kb, C07_ex.one)]); (C07_ex.kc, C07_ex.two)] /\
+  alookup C07_ex.kc (sd_data (sd_clean C07_ex.sc)) = alookup C07_ex.kc (sd_data C07_ex.sc) /\
+  (alookup C07_ex.ka (sd_data (sd_clean C07_ex.sc)) = alookup C07_ex.ka (sd_data C07_ex.sc) \/
+   exists sub sub', alookup C07_ex.ka (sd_data C07_ex.sc) = Some (Dict sub) /\
+                    alookup C07_ex.ka (sd_data (sd_clean C07_ex.sc)) = Some (Dict sub')).
+Proof.
+  assert (H1 : ordinary_key C07_ex.kc = true) by (vm_compute; reflexivity).
+  assert (H2 : ordinary_key C07_ex.ka = true) by (vm_compute; reflexivity).
+  assert (H3 : wf (Dict (sd_data C07_ex.sc)) = true) by (vm_compute; reflexivity).
+  refine (conj H1 (conj H2 (conj H3 (conj _ (conj _ (C07_clean_only_placeholders C07_ex.sc C07_ex.ka H2 H3)))))).
+  - vm_compute. reflexivity.
+  - vm_compute. reflexivity.
+Qed.
+
 (* merge algebra (data level, first-wins recursive merge) *)
 Theorem C07_merge_keeps : forall target other p v,
   get_dpath (Dict target) p = Some (Leaf v) -> get_dpath (Dict (merge_spec target other)) p = Some (Leaf v).
 Proof. exact merge_keeps_leaves. Qed.
 Print Assumptions C07_merge_keeps.
+
+Example C07_merge_keeps_nonvacuous :
+  get_dpath (Dict C07_ex.target) [C07_ex.ka; C07_ex.kb] = Some (Leaf (SInt 1)) /\
+  get_dpath (Dict C07_ex.other) [C07_ex.ka; C07_ex.kb] = Some (Leaf (SInt 2)) /\
+  get_dpath (Dict (merge_spec C07_ex.target C07_ex.other)) [C07_ex.ka; C07_ex.kb] = Some (Leaf (SInt 1)).
+Proof.
+  assert (H : get_dpath (Dict C07_ex.target) [C07_ex.ka; C07_ex.kb] = Some (Leaf (SInt 1))) by (vm_compute; reflexivity).
+  refine (conj H (conj _ (C07_merge_keeps C07_ex.target C07_ex.other _ _ H))). vm_compute. reflexivity.
+Qed.
 
 (* existing entries win: a path of [other] is present after the merge unless an existing non-dict entry of
    [target] on a proper non-empty prefix of the path blocked it *)
@@ -51,6 +155,23 @@ Theorem C07_merge_adds : forall target other p x, wf (Dict other) = true ->
 Proof. exact merge_adds_paths. Qed.
 Print Assumptions C07_merge_adds.
 
+(* non-vacuity: both alternatives occur -- a.d.a is added (below an existing dict), c.a is blocked by the leaf c *)
+Example C07_merge_adds_nonvacuous :
+  wf (Dict C07_ex.other) = true /\
+  get_dpath (Dict C07_ex.other) [C07_ex.ka; C07_ex.kd; C07_ex.ka] = Some C07_ex.two /\
+  get_dpath (Dict (merge_spec C07_ex.target C07_ex.other)) [C07_ex.ka; C07_ex.kd; C07_ex.ka] = Some C07_ex.two /\
+  get_dpath (Dict C07_ex.other) [C07_ex.kc; C07_ex.ka] = Some C07_ex.one /\
+  get_dpath (Dict (merge_spec C07_ex.target C07_ex.other)) [C07_ex.kc; C07_ex.ka] = None /\
+  ((exists y, get_dpath (Dict (merge_spec C07_ex.target C07_ex.other)) [C07_ex.kc; C07_ex.ka] = Some y) \/
+   (exists r t, strict_prefix r [C07_ex.kc; C07_ex.ka] /\ r <> [] /\ get_dpath (Dict C07_ex.target) r = Some t /\
+                (forall kvs, t <> Dict kvs))).
+Proof.
+  assert (H1 : wf (Dict C07_ex.other) = true) by (vm_compute; reflexivity).
+  assert (H2 : get_dpath (Dict C07_ex.other) [C07_ex.kc; C07_ex.ka] = Some C07_ex.one) by (vm_compute; reflexivity).
+  refine (conj H1 (conj _ (conj _ (conj H2 (conj _ (C07_merge_adds C07_ex.target C07_ex.other _ _ H1 H2))))));
+  vm_compute; reflexivity.
+Qed.
+
 Theorem C07_merge_order : forall target other, exists added, map fst (merge_spec target other) = map fst target ++ added.
 Proof. exact merge_keeps_order. Qed.
 Print Assumptions C07_merge_order.
@@ -60,6 +181,14 @@ Theorem C07_merge_idem : forall target other, wf (Dict other) = true ->
 Proof. exact merge_idempotent. Qed.
 Print Assumptions C07_merge_idem.
 
+Example C07_merge_idem_nonvacuous :
+  wf (Dict C07_ex.other) = true /\ merge_spec C07_ex.target C07_ex.other <> C07_ex.target /\
+  merge_spec (merge_spec C07_ex.target C07_ex.other) C07_ex.other = merge_spec C07_ex.target C07_ex.other.
+Proof.
+  assert (H1 : wf (Dict C07_ex.other) = true) by (vm_compute; reflexivity).
+  refine (conj H1 (conj _ (C07_merge_idem C07_ex.target C07_ex.other H1))). vm_compute. discriminate.
+Qed.
+
 (* the model's fuelled merge without self-references is the specification merge *)
 Theorem C07_merge_model : forall s m o, ordinary_kvs (sd_data s) = true -> ordinary_kvs m = true ->
   wf (Dict (sd_data s)) = true -> wf (Dict m) = true ->
@@ -67,12 +196,42 @@ Theorem C07_merge_model : forall s m o, ordinary_kvs (sd_data s) = true -> ordin
 Proof. exact sd_merge_is_spec. Qed.
 Print Assumptions C07_merge_model.
 
+Example C07_merge_model_nonvacuous :
+  ordinary_kvs (sd_data C07_ex.s0) = true /\ ordinary_kvs C07_ex.other = true /\
+  wf (Dict (sd_data C07_ex.s0)) = true /\ wf (Dict C07_ex.other) = true /\
+  sd_data (sd_merge C07_ex.s0 C07_ex.other (Some C07_ex.o1)) = merge_spec (sd_data C07_ex.s0) C07_ex.other /\
+  merge_spec (sd_data C07_ex.s0) C07_ex.other =
+    [(C07_ex.ka, Dict [(C07_ex.kb, C07_ex.one); (C07_ex.kc, Lst [C07_ex.one; Dict [(C07_ex.ka, C07_ex.two)]]);
+                       (C07_ex.kd, Dict [(C07_ex.ka, C07_ex.two)])]);
+     (C07_ex.kc, Leaf (SStr (of_string "x y"))); (KI 1, C07_ex.two); (C07_ex.kd, C07_ex.one)].
+Proof.
+  assert (H1 : ordinary_kvs (sd_data C07_ex.s0) = true) by (vm_compute; reflexivity).
+  assert (H2 : ordinary_kvs C07_ex.other = true) by (vm_compute; reflexivity).
+  assert (H3 : wf (Dict (sd_data C07_ex.s0)) = true) by (vm_compute; reflexivity).
+  assert (H4 : wf (Dict C07_ex.other) = true) by (vm_compute; reflexivity).
+  refine (conj H1 (conj H2 (conj H3 (conj H4 (conj (C07_merge_model C07_ex.s0 C07_ex.other _ H1 H2 H3 H4) _))))).
+  vm_compute. reflexivity.
+Qed.
+
 (* side tables: update = other wins, merge = existing wins *)
 Theorem C07_tables : forall (a b : list (N * str)) i, ids_nodup b ->
   tlookup i (tupdate a b) = (match tlookup i b with Some v => Some v | None => tlookup i a end) /\
   tlookup i (tmerge a b) = (match tlookup i a with Some v => Some v | None => tlookup i b end).
 Proof. exact tables_update_vs_merge. Qed.
 Print Assumptions C07_tables.
+
+Example C07_tables_nonvacuous :
+  let a := [(1%N, of_string "// a1"); (3%N, of_string "// a3")] in
+  let b := [(3%N, of_string "// b3"); (2%N, of_string "// b2")] in
+  ids_nodup b /\
+  (tlookup 3%N (tupdate a b) = Some (of_string "// b3") /\ tlookup 3%N (tmerge a b) = Some (of_string "// a3")) /\
+  (tlookup 2%N (tupdate a b) = Some (of_string "// b2") /\ tlookup 2%N (tmerge a b) = Some (of_string "// b2")).
+Proof.
+  intros a b.
+  assert (H : ids_nodup b).
+  { unfold ids_nodup. cbn [b map fst]. repeat constructor; cbn [In]; intuition discriminate. }
+  exact (conj H (conj (C07_tables a b 3%N H) (C07_tables a b 2%N H))).
+Qed.
 
 (* ---- non-vacuity: a concrete ordinary, well formed state and history satisfying every hypothesis of
    C07_history (update with an overlapping nested dict, merge, delete) -------------------------------- *)
